@@ -51,6 +51,16 @@ int main(int argc, char** argv)
             // C: priority flood, elevation snapshot after it
             graph_t gC(grid, { fs::pflood_sink_resolver(), fs::flow_snapshot("filled", false, true), fs::single_flow_router() });
             graph_t pC(grid, { fs::pflood_sink_resolver(), fs::single_flow_router() });
+            // D: the observers of a snapshot graph that read the mask and the base levels (basins(), pits()): live graph with a mask and custom base levels
+            graph_t gD(grid, { fs::single_flow_router(), fs::flow_snapshot("s", true, false), fs::mst_sink_resolver() });
+            graph_t pD(grid, { fs::single_flow_router() });
+            {
+                xt::xarray<bool> mask = xt::zeros<bool>({ nr, nc });
+                mask(1, 1) = true;
+                std::vector<std::size_t> bl{ 0, n - 1 };
+                gD.set_mask(mask); pD.set_mask(mask);
+                gD.set_base_levels(bl); pD.set_base_levels(bl);
+            }
             for (int upd = 0; upd < 3; ++upd)
             {
                 xt::xarray<double> elev = xt::zeros<double>({ nr, nc });
@@ -68,6 +78,16 @@ int main(int argc, char** argv)
                 gC.update_routes(elev);
                 const auto& filled = pC.update_routes(elev);
                 if (gC.elevation_snapshot("filled") != filled) { std::cout << "VIOLATED C16: elevation snapshot after the priority flood differs from the filled surface\n"; return 1; }
+                gD.update_routes(elev); pD.update_routes(elev);
+                {
+                    auto bs = gD.graph_snapshot("s").basins();
+                    auto bp = pD.basins();
+                    for (std::size_t i = 0; i < n; ++i)
+                        if (bs.flat(i) != bp.flat(i)) { std::cout << "VIOLATED C16: basins() of the snapshot graph differ from a graph running only the prefix (mask / base levels of the live graph) at node " << i << "\n"; return 1; }
+                    auto ps = const_cast<graph_t::impl_type&>(gD.graph_snapshot("s").impl()).pits();
+                    auto pp = const_cast<graph_t::impl_type&>(pD.impl()).pits();
+                    if (ps.size() != pp.size()) { std::cout << "VIOLATED C16: pits() of the snapshot graph (" << ps.size() << ") differ from a graph running only the prefix (" << pp.size() << "): base levels of the live graph\n"; return 1; }
+                }
                 bool refused = false;
                 try { gB.graph_snapshot("res").update_routes(elev); } catch (std::runtime_error&) { refused = true; }
                 if (!refused) { std::cout << "VIOLATED C16: snapshot graph accepted update_routes\n"; return 1; }
